@@ -46,7 +46,10 @@ Inductive flag :=
 | FwLitdata     (* data_pipeline_fw == "litdata" *)
 | UseExisting   (* data_config.use_existing_chunks *)
 | DeleteChunks  (* data_config.delete_chunks_after_training *)
-| Structured.   (* the supplied config is a typed (builder-made) structured config *)
+| Structured    (* the supplied config is a typed (builder-made) structured config *)
+| WandbOffline  (* trainer_config.wandb.wandb_mode == "offline" (else train() logs in with the key) *)
+| MemFallback.  (* the in-memory cache does not fit: `_create_data_loaders_torch_dataset` switches a
+                   torch_dataset run to np_chunks mid-run (chunks under ./train_chunks, ./val_chunks) *)
 
 Inductive cond :=
 | CTrue | CFalse
@@ -63,8 +66,9 @@ Inductive atom :=
                                              field exists in the attrs schema of the structured config *)
 | ARm (t : rmt)                     (* the chunk directory t is removed (if it exists) *)
 | ARaise                            (* explicit `raise` statement (input validation) *)
-| ACall (id : nat).                 (* an external call with no modelled effect, e.g. the return of
-                                       Trainer.fit: a point where an external exception may strike *)
+| ACall (id : nat).                 (* an external call with no modelled effect on files: a point where an
+                                       external exception may strike.  id 0 = the return of Trainer.fit,
+                                       id 1 = wandb.login(key=<the stashed key>) *)
 
 Inductive eff :=
 | Skip
@@ -286,12 +290,14 @@ Definition flag_eqb (a b : flag) : bool :=
   match a, b with
   | RankZero, RankZero | UseWandb, UseWandb | SaveCkpt, SaveCkpt | FwTorch, FwTorch
   | FwNpChunks, FwNpChunks | FwLitdata, FwLitdata | UseExisting, UseExisting
-  | DeleteChunks, DeleteChunks | Structured, Structured => true
+  | DeleteChunks, DeleteChunks | Structured, Structured | WandbOffline, WandbOffline
+  | MemFallback, MemFallback => true
   | _, _ => false
   end.
 
 Definition all_flags : list flag :=
-  [RankZero; UseWandb; SaveCkpt; FwTorch; FwNpChunks; FwLitdata; UseExisting; DeleteChunks; Structured].
+  [RankZero; UseWandb; SaveCkpt; FwTorch; FwNpChunks; FwLitdata; UseExisting; DeleteChunks; Structured;
+   WandbOffline; MemFallback].
 
 Definition upd (F : flag -> bool) (g : flag) (b : bool) : flag -> bool :=
   fun f => if flag_eqb f g then b else F f.
@@ -302,11 +308,23 @@ Fixpoint envs (fs : list flag) : list (flag -> bool) :=
   | g :: r => flat_map (fun F => [upd F g false; upd F g true]) (envs r)
   end.
 
-Definition all_envs : list (flag -> bool) := envs all_flags.   (* 2^9 = 512 valuations *)
+Definition all_envs : list (flag -> bool) := envs all_flags.   (* 2^11 = 2048 valuations *)
 
-(* a *valid cell* of the property's grid: single process, chunks are created by this run,
-   exactly one of the two torch_dataset frameworks *)
+(* a *valid cell* of the property's grid: single process; exactly one of the THREE data
+   frameworks (in-memory, np chunks, litdata); chunks created by this run or — chunk frameworks
+   only — re-used from an earlier run (`use_existing_chunks`); any wandb mode; the in-memory cache
+   fitting or not (round 1: two frameworks, no re-use, no fallback) *)
+Definition one_framework (F : flag -> bool) : bool :=
+  match F FwTorch, F FwNpChunks, F FwLitdata with
+  | true, false, false | false, true, false | false, false, true => true
+  | _, _, _ => false
+  end.
+
 Definition valid_cell (F : flag -> bool) : bool :=
+  F RankZero && one_framework F && implb (F UseExisting) (negb (F FwTorch)).
+
+(* the round-1 grid, kept for comparison: Props.v shows valid_cell_r1 F = true -> valid_cell F = true *)
+Definition valid_cell_r1 (F : flag -> bool) : bool :=
   F RankZero && negb (F UseExisting) && negb (F FwLitdata) && xorb (F FwTorch) (F FwNpChunks).
 
 (* ---- monitors and checkers of C19 --------------------------------------- *)
@@ -322,6 +340,10 @@ Definition is_write_to (f : file) (a : atom) : bool :=
   end.
 
 Definition is_set (a : atom) : bool := match a with ASet _ _ => true | _ => false end.
+(* the translator gives the mutation `trainer_config.wandb.run_id = ...` the reserved path number 100 *)
+Definition run_id_path : nat := 100.
+Definition is_set_path (n : nat) (a : atom) : bool :=
+  match a with ASet m _ => Nat.eqb m n | _ => false end.
 Definition is_reload (a : atom) : bool := match a with AReload => true | _ => false end.
 Definition is_mask (a : atom) : bool := match a with AMask => true | _ => false end.
 Definition is_rm (t : rmt) (a : atom) : bool :=
@@ -374,6 +396,20 @@ Definition final_mon : mon :=
 Definition final_config_contract (p : eff) : bool :=
   forall_envs (fun F => implb (F RankZero) (ends_clean final_mon F p)).
 
+(* (3') with tracking on, the id of the tracking run is recorded in the live configuration on every
+   completed run: state = "run_id not recorded yet" *)
+Definition runid_mon : mon := {| gen := never; kill := is_set_path run_id_path; bad := never |}.
+
+Definition run_id_contract (p : eff) : bool :=
+  forall_envs (fun F => implb (F RankZero && F UseWandb) (ends_clean runid_mon F p)).
+
+(* (3'') the final save survives every exception that strikes inside a try body: at normal exit
+   AND at exit by any exception other than an explicit rejection, `final_mon` is clean *)
+Definition final_config_contract_faults (p : eff) : bool :=
+  forall_envs (fun F => implb (F RankZero)
+     (let r := ai final_mon F true false p true in
+      a_ok r && av_le (a_nrm r) false && av_le (a_xo r) false)).
+
 (* (4) checkpoints: none unless save_ckpt; one on every completed run when save_ckpt *)
 Definition no_ckpt_mon : mon := {| gen := never; kill := never; bad := is_write_to FCkpt |}.
 Definition ckpt_written_mon : mon := {| gen := never; kill := is_write_to FCkpt; bad := never |}.
@@ -382,33 +418,45 @@ Definition ckpt_contract (p : eff) : bool :=
   forall_envs (fun F => implb (negb (F SaveCkpt)) (a_ok (ai no_ckpt_mon F true false p true))) &&
   forall_envs (fun F => implb (F SaveCkpt) (ends_clean ckpt_written_mon F p)).
 
-(* (5) chunk deletion: never unless requested (np_chunks framework and delete flag);
-   when requested, on EVERY path that is not an explicit rejection of the configuration —
-   normal completion and any exception, external faults inside try bodies included *)
+(* (5) chunk deletion: never unless requested; when requested, on EVERY path that is not an
+   explicit rejection of the configuration — normal completion and any exception, external faults
+   inside try bodies included.  "Requested" for a directory t: the delete flag is on and the run
+   produces / uses chunks of that kind — np chunks under the np_chunks framework or after the
+   memory fallback of an in-memory run, litdata chunks under the litdata framework *)
+Definition np_in_use (F : flag -> bool) : bool := F FwNpChunks || (F FwTorch && F MemFallback).
+
+Definition rm_req (F : flag -> bool) (t : rmt) : bool :=
+  F DeleteChunks && match t with RmTrain | RmVal => np_in_use F | RmLitTrain | RmLitVal => F FwLitdata end.
+
+Definition rm_requested (F : flag -> bool) : bool := np_in_use F && F DeleteChunks.   (* = rm_req F RmTrain *)
+
+Definition no_rm_mon_t (t : rmt) : mon := {| gen := never; kill := never; bad := is_rm t |}.
 Definition no_rm_mon : mon :=
   {| gen := never; kill := never; bad := fun a => is_rm RmTrain a || is_rm RmVal a |}.
 Definition rm_done_mon (t : rmt) : mon := {| gen := never; kill := is_rm t; bad := never |}.
 
-Definition rm_requested (F : flag -> bool) : bool := F FwNpChunks && F DeleteChunks.
+Definition all_rmt : list rmt := [RmTrain; RmVal; RmLitTrain; RmLitVal].
 
 (* selector of finding F15: structured config and tracking on *)
 Definition sel_F15 (F : flag -> bool) : bool := F Structured && F UseWandb.
 
 Definition rm_all_paths (excuse : (flag -> bool) -> bool) (t : rmt) (p : eff) : bool :=
-  forall_envs (fun F => implb (valid_cell F && rm_requested F && negb (excuse F))
+  forall_envs (fun F => implb (valid_cell F && rm_req F t && negb (excuse F))
      (let r := ai (rm_done_mon t) F true false p true in
       a_ok r && av_le (a_nrm r) false && av_le (a_xo r) false)).
 
 Definition no_excuse (_ : flag -> bool) : bool := false.
 
-Definition chunk_guard_contract (p : eff) : bool :=
-  forall_envs (fun F => implb (negb (rm_requested F)) (a_ok (ai no_rm_mon F true false p true))).
+Definition chunk_guard_t (t : rmt) (p : eff) : bool :=
+  forall_envs (fun F => implb (negb (rm_req F t)) (a_ok (ai (no_rm_mon_t t) F true false p true))).
+
+Definition chunk_guard_contract (p : eff) : bool := forallb (fun t => chunk_guard_t t p) all_rmt.
 
 Definition chunk_contract (p : eff) : bool :=
-  chunk_guard_contract p && rm_all_paths no_excuse RmTrain p && rm_all_paths no_excuse RmVal p.
+  chunk_guard_contract p && forallb (fun t => rm_all_paths no_excuse t p) all_rmt.
 
 Definition chunk_contract_unless_F15 (p : eff) : bool :=
-  chunk_guard_contract p && rm_all_paths sel_F15 RmTrain p && rm_all_paths sel_F15 RmVal p.
+  chunk_guard_contract p && forallb (fun t => rm_all_paths sel_F15 t p) all_rmt.
 
 (* (6) completion: on a valid cell, without external faults, the run ends normally
    or by an explicit rejection — never by another exception *)
@@ -454,36 +502,46 @@ Fixpoint flag_determined (p : eff) : bool :=
 
 (* ---- cells of the grid, for the harness -------------------------------- *)
 
-Record cell := { c_wandb : bool; c_ckpt : bool; c_np : bool; c_delete : bool; c_structured : bool }.
+Inductive fwk := KMem | KNp | KLit.
+
+Record cell := { c_wandb : bool; c_ckpt : bool; c_fw : fwk; c_delete : bool; c_structured : bool;
+                 c_offline : bool; c_existing : bool; c_memfb : bool }.
 
 Definition cell_flags (c : cell) : flag -> bool := fun f =>
   match f with
   | RankZero => true
   | UseWandb => c_wandb c
   | SaveCkpt => c_ckpt c
-  | FwTorch => negb (c_np c)
-  | FwNpChunks => c_np c
-  | FwLitdata => false
-  | UseExisting => false
+  | FwTorch => match c_fw c with KMem => true | _ => false end
+  | FwNpChunks => match c_fw c with KNp => true | _ => false end
+  | FwLitdata => match c_fw c with KLit => true | _ => false end
+  | UseExisting => c_existing c
   | DeleteChunks => c_delete c
   | Structured => c_structured c
+  | WandbOffline => c_offline c
+  | MemFallback => c_memfb c
   end.
 
 (* environment of a cell: every opaque condition has the value `ov`, loops run once; an
-   optional single fault (the harness injects one when Trainer.fit returns) *)
-Definition cell_env (c : cell) (ov : bool) (fault_at : option nat) : env :=
+   optional single fault (the harness injects one at the entry of the try body / when
+   Trainer.fit returns, as a RuntimeError or a KeyboardInterrupt) *)
+Definition cell_env (c : cell) (ov : bool) (fault_at : option (nat * xfault)) : env :=
   {| fl := cell_flags c; opq := fun _ => ov; iters := fun _ => 1;
      fault := fun i => match fault_at with
-                       | Some j => if Nat.eqb i j then FaultOther else NoFault
+                       | Some (j, x) => if Nat.eqb i j then x else NoFault
                        | None => NoFault end |}.
 
-Definition all_cells : list cell :=
-  flat_map (fun w => flat_map (fun k => flat_map (fun n => flat_map (fun d => map (fun s =>
-    {| c_wandb := w; c_ckpt := k; c_np := n; c_delete := d; c_structured := s |})
-    [false; true]) [false; true]) [false; true]) [false; true]) [false; true].
+Definition bools : list bool := [false; true].
 
-(* observable events of a trace: writes with key bits, chunk removals *)
-Inductive obs := OWrite (f : file) (ctor key : bool) | ORm (t : rmt).
+Definition all_cells : list cell :=
+  flat_map (fun w => flat_map (fun k => flat_map (fun fw => flat_map (fun d => flat_map (fun s =>
+  flat_map (fun o => flat_map (fun x => map (fun m =>
+    {| c_wandb := w; c_ckpt := k; c_fw := fw; c_delete := d; c_structured := s;
+       c_offline := o; c_existing := x; c_memfb := m |})
+    bools) bools) bools) bools) bools) [KMem; KNp; KLit]) bools) bools.
+
+(* observable events of a trace: writes with key bits, chunk removals, the wandb login *)
+Inductive obs := OWrite (f : file) (ctor key : bool) | ORm (t : rmt) | OLogin.
 
 Fixpoint obs_of (key : bool) (tr : list atom) : list obs :=
   match tr with
@@ -493,16 +551,25 @@ Fixpoint obs_of (key : bool) (tr : list atom) : list obs :=
   | AWrite f c :: r => OWrite f c key :: obs_of key r
   | AWriteMasked f c :: r => OWrite f c false :: obs_of key r
   | ARm t :: r => ORm t :: obs_of key r
+  | ACall 1 :: r => OLogin :: obs_of key r
   | _ :: r => obs_of key r
   end.
 
-(* index of the first external-call step in a trace: the harness injects a fault "when
-   Trainer.fit returns"; in the model this is a fault striking before that step *)
+(* index of the step at which Trainer.fit returns (`ACall 0`), and of the first step inside the
+   try body (the checkpoint write when checkpointing is on, else the fit call): the harness
+   injects faults there; in the model a fault strikes BEFORE the step with that index *)
 Fixpoint call_index (tr : list atom) : option nat :=
   match tr with
   | [] => None
-  | ACall _ :: _ => Some 0
+  | ACall 0 :: _ => Some 0
   | _ :: r => option_map S (call_index r)
+  end.
+
+Fixpoint try_index (tr : list atom) : option nat :=
+  match tr with
+  | [] => None
+  | ACall 0 :: _ | AWrite FCkpt _ :: _ | AWriteMasked FCkpt _ :: _ => Some 0
+  | _ :: r => option_map S (try_index r)
   end.
 
 Definition outcome_ok (o : outcome) : bool := match o with Ok => true | _ => false end.
@@ -516,12 +583,24 @@ Definition outcome_rejected (o : outcome) : bool := match o with ExnInvalid => t
 Definition cell_opq (p : eff) (c : cell) : bool :=
   negb (outcome_rejected (snd (exec (cell_env c true None) false p 0))).
 
-Definition cenv (p : eff) (c : cell) (fault_at : option nat) : env := cell_env c (cell_opq p c) fault_at.
+Definition cenv (p : eff) (c : cell) (fault_at : option (nat * xfault)) : env :=
+  cell_env c (cell_opq p c) fault_at.
 
-Definition run_cell (p : eff) (ci : cell * bool) : list obs * outcome :=
+(* fault modes of the harness: 0 none; 1 / 2 = RuntimeError / KeyboardInterrupt when Trainer.fit
+   returns; 3 / 4 = the same at the entry of the try body *)
+Definition fault_of_mode (p : eff) (c : cell) (m : nat) : option (nat * xfault) :=
+  let tr := trace (cenv p c None) p in
+  match m with
+  | 1 => option_map (fun i => (i, FaultOther)) (call_index tr)
+  | 2 => option_map (fun i => (i, FaultKI)) (call_index tr)
+  | 3 => option_map (fun i => (i, FaultOther)) (try_index tr)
+  | 4 => option_map (fun i => (i, FaultKI)) (try_index tr)
+  | _ => None
+  end.
+
+Definition run_cell (p : eff) (ci : cell * nat) : list obs * outcome :=
   let c := fst ci in
-  let fa := if snd ci then call_index (trace (cenv p c None) p) else None in
-  let E := cenv p c fa in
+  let E := cenv p c (fault_of_mode p c (snd ci)) in
   (obs_of true (trace E p), result E p).
 
 (* the leaking writes of a cell: (file, ctor) of every write whose content holds the key *)
@@ -542,12 +621,30 @@ Definition first_failing_cell (p : eff) : option cell :=
   find (fun c => valid_cell (cell_flags c) && negb (cell_completes p c)) all_cells.
 
 (* a requested chunk deletion that does not happen although the run is not rejected *)
-Definition rm_missing (p : eff) (c : cell) : bool :=
-  rm_requested (cell_flags c) && negb (outcome_rejected (result (cenv p c None) p)) &&
-  negb (existsb (is_rm RmTrain) (trace (cenv p c None) p) && existsb (is_rm RmVal) (trace (cenv p c None) p)).
+Definition rm_missing_t (p : eff) (c : cell) (t : rmt) : bool :=
+  rm_req (cell_flags c) t && negb (outcome_rejected (result (cenv p c None) p)) &&
+  negb (existsb (is_rm t) (trace (cenv p c None) p)).
+
+Definition rm_missing (p : eff) (c : cell) : bool := existsb (rm_missing_t p c) all_rmt.
 
 Definition first_rm_missing_cell (p : eff) : option cell :=
   find (fun c => valid_cell (cell_flags c) && rm_missing p c) all_cells.
+
+(* two terms have the same observable behaviour on every cell and fault mode of the harness *)
+Definition same_on_cells (p q : eff) : bool :=
+  forallb (fun c => forallb (fun m =>
+     match run_cell p (c, m), run_cell q (c, m) with
+     | (o1, r1), (o2, r2) =>
+         Nat.eqb (List.length o1) (List.length o2) &&
+         forallb (fun ab => match ab with
+                            | (OWrite f1 c1 k1, OWrite f2 c2 k2) =>
+                                is_write_to f1 (AWrite f2 true) && Bool.eqb c1 c2 && Bool.eqb k1 k2
+                            | (ORm t1, ORm t2) => is_rm t1 (ARm t2)
+                            | (OLogin, OLogin) => true
+                            | _ => false end) (combine o1 o2) &&
+         match r1, r2 with Ok, Ok | ExnKI, ExnKI | ExnOther, ExnOther | ExnInvalid, ExnInvalid => true
+                         | _, _ => false end
+     end) [0; 1; 2; 3; 4]) all_cells.
 
 (* ---- rendering ---------------------------------------------------------- *)
 Open Scope string_scope.
@@ -565,24 +662,28 @@ Definition robs (o : obs) : rdr :=
   match o with
   | OWrite f c k => fun s => "[""w""," ++ rquoted (file_name f) ("," ++ rbool c ("," ++ rbool k ("]" ++ s)))
   | ORm t => fun s => "[""rm""," ++ rquoted (rmt_name t) ("]" ++ s)
+  | OLogin => fun s => "[""login""]" ++ s
   end.
 
 Definition rrun (r : list obs * outcome) : rdr :=
   rpair (rlist robs) (fun o => rquoted (outcome_name o)) r.
 
 Definition rcell (c : cell) : rdr :=
-  rlist rbool [c_wandb c; c_ckpt c; c_np c; c_delete c; c_structured c].
+  rlist rbool [c_wandb c; c_ckpt c; match c_fw c with KNp => true | _ => false end; c_delete c; c_structured c].
 
 (* ---- frozen snapshot of the pinned tree (hand-checked against the source;
-        the per-run obligations use the GENERATED term, not this one) -------- *)
+        the per-run obligations use the GENERATED term, not this one; every run also has the
+        kernel check `same_on_cells generated (reference true true)`) -------- *)
 
-(* `fixed14` = the key is blanked right after the configuration is loaded (proposed fix F14);
-   `fixed15` = WandBConfig declares `run_id` (proposed fix F15). *)
+(* `fixed14` = the key is blanked right after the configuration is loaded (fix F14);
+   `fixed15` = WandBConfig declares `run_id` (fix F15). *)
 Definition reference (fixed14 fixed15 : bool) : eff :=
   block [
     (* ---- __init__ ---- *)
     Do AReload;
     (if fixed14 then Do AMask else Skip);
+    If (CAnd (COr (CFlag FwTorch) (CFlag FwNpChunks)) (CFlag UseExisting))   (* chunks to re-use must exist *)
+       (block [If (CNot (COpaque 10)) (Do ARaise) Skip; If (CNot (COpaque 11)) (Do ARaise) Skip]) Skip;
     If (CFlag RankZero) (Do (AWrite FInitial true)) Skip;
     If (COpaque 0) (Do (ASet 0 true)) Skip;                  (* preprocessing.scale := 1.0 *)
     If (CFlag UseExisting) Skip (block [
@@ -599,6 +700,7 @@ Definition reference (fixed14 fixed15 : bool) : eff :=
     (* ---- train ---- *)
     Do (ASet 8 true);                                         (* model_config.total_params *)
     If (CFlag UseWandb) (block [
+       If (CFlag WandbOffline) Skip (Do (ACall 1));           (* wandb.login(key=...) unless offline *)
        Do AMask;
        If (CFlag RankZero) (Do (AWrite FWandbRun false)) Skip]) Skip;
     If (CFlag RankZero) (Do (AWrite FTraining false)) Skip;
@@ -608,9 +710,10 @@ Definition reference (fixed14 fixed15 : bool) : eff :=
     Try (block [If (CFlag SaveCkpt) (Do (AWrite FCkpt false)) Skip; Do (ACall 0)])  (* Trainer.fit *)
         true
         (block [
-           If (CFlag UseWandb) (Do (ASet 9 fixed15)) Skip;    (* trainer_config.wandb.run_id *)
+           If (CFlag UseWandb) (Do (ASet run_id_path fixed15)) Skip;    (* trainer_config.wandb.run_id *)
            Do (AWrite FTraining false);
-           If (CAnd (CFlag FwNpChunks) (CFlag DeleteChunks))
+           (* self.data_pipeline_fw is np_chunks from the start or since the memory fallback *)
+           If (CAnd (COr (CFlag FwNpChunks) (CAnd (CFlag FwTorch) (CFlag MemFallback))) (CFlag DeleteChunks))
               (block [Do (ARm RmTrain); Do (ARm RmVal)]) Skip;
            If (CAnd (CFlag FwLitdata) (CFlag DeleteChunks))
               (block [Do (ARm RmLitTrain); Do (ARm RmLitVal)]) Skip])
